@@ -262,3 +262,112 @@ def translational_compact_contract():
                     requires=lambda V: [V.p.n_patom >= 0, V.p.n_satom >= 0, _tab(V.a.p2s, V.p.n_patom, 0, V.p.n_satom)],
                     ensures=ens, modifies=("fc",),
                     loops={0: LoopSpec(inv_i), 3: LoopSpec(inv_j, unfold=unfold_j, define=define_j)}, gen=gen, interp=interp)
+
+
+# ---------------------------------------------------------------- full layout: perm + trans symmetriser (sweeps)
+def perm_trans_full_contract(index_perm, trans):
+    """phpy_perm_trans_symmetrize_fc: every iteration subtracts the column drift (mean over the first atom index) of
+    each tensor component from that component, then the row drift, then symmetrises the index permutation;
+    finally the translational sum rule is imposed on the diagonal blocks."""
+    def Csum(A):
+        return RecSum("colsum", [I, I, I], lambda j, k, l, i: A[i, j, k, l])
+
+    def Rsum(B):
+        return RecSum("rowsum", [I, I, I], lambda i, k, l, j: B[i, j, k, l])
+
+    def nreal(V):
+        return z3.ToReal(V.p.n_satom)
+
+    def kl(V):
+        return z3.simplify(V.v.k), z3.simplify(V.v.l)
+
+    def inv_iter(V):
+        return [("range", z3.And(V.v.iter >= 0, V.v.iter <= z3.If(V.p.level >= 0, V.p.level, 0)))]
+
+    # ---- column sweep
+    def inv_col_j(V):
+        n = V.p.n_satom
+        A = V.pre.a.fc
+        C = Csum(A)
+        return [("range", z3.And(V.v.j >= 0, V.v.j <= n)),
+                ("cells", z3.ForAll([p_, q_, a_, b_], z3.Implies(_rng4(n, n), V.a.fc[p_, q_, a_, b_] == z3.If(
+                    q_ < V.v.j, A[p_, q_, a_, b_] - C(q_, a_, b_, n) / nreal(V), A[p_, q_, a_, b_]))))]
+
+    def inv_col_sum(V):
+        n = V.p.n_satom
+        A = V.pre.outer[-1].a.fc
+        k, l = kl(V)
+        return [("range", z3.And(V.v.i >= 0, V.v.i <= n, V.v.j >= 0, V.v.j < n)), ("partial", V.v.sum == Csum(A)(V.v.j, k, l, V.v.i))]
+
+    def unfold_col_sum(V):
+        A = V.pre.outer[-1].a.fc
+        k, l = kl(V)
+        C = Csum(A)
+        return [C.zero(V.v.j, k, l), C.unfold(V.v.j, k, l, V.v.i), C.unfold(V.v.j, k, l, V.v.i - 1)]
+
+    def inv_col_sub(V):
+        n = V.p.n_satom
+        P5 = V.pre.a.fc
+        k, l = kl(V)
+        return [("range", z3.And(V.v.i >= 0, V.v.i <= n, V.v.j >= 0, V.v.j < n)),
+                ("cells", z3.ForAll([p_, q_, a_, b_], z3.Implies(_rng4(n, n), V.a.fc[p_, q_, a_, b_] == z3.If(
+                    z3.And(p_ < V.v.i, q_ == V.v.j, a_ == k, b_ == l), P5[p_, q_, a_, b_] - V.v.sum, P5[p_, q_, a_, b_]))))]
+
+    # ---- row sweep
+    def inv_row_i(V):
+        n = V.p.n_satom
+        B = V.pre.a.fc
+        R = Rsum(B)
+        return [("range", z3.And(V.v.i >= 0, V.v.i <= n)),
+                ("cells", z3.ForAll([p_, q_, a_, b_], z3.Implies(_rng4(n, n), V.a.fc[p_, q_, a_, b_] == z3.If(
+                    p_ < V.v.i, B[p_, q_, a_, b_] - R(p_, a_, b_, n) / nreal(V), B[p_, q_, a_, b_]))))]
+
+    def inv_row_sum(V):
+        n = V.p.n_satom
+        B = V.pre.outer[-1].a.fc
+        k, l = kl(V)
+        return [("range", z3.And(V.v.j >= 0, V.v.j <= n, V.v.i >= 0, V.v.i < n)), ("partial", V.v.sum == Rsum(B)(V.v.i, k, l, V.v.j))]
+
+    def unfold_row_sum(V):
+        B = V.pre.outer[-1].a.fc
+        k, l = kl(V)
+        R = Rsum(B)
+        return [R.zero(V.v.i, k, l), R.unfold(V.v.i, k, l, V.v.j), R.unfold(V.v.i, k, l, V.v.j - 1)]
+
+    def inv_row_sub(V):
+        n = V.p.n_satom
+        P10 = V.pre.a.fc
+        k, l = kl(V)
+        return [("range", z3.And(V.v.j >= 0, V.v.j <= n, V.v.i >= 0, V.v.i < n)),
+                ("cells", z3.ForAll([p_, q_, a_, b_], z3.Implies(_rng4(n, n), V.a.fc[p_, q_, a_, b_] == z3.If(
+                    z3.And(q_ < V.v.j, p_ == V.v.i, a_ == k, b_ == l), P10[p_, q_, a_, b_] - V.v.sum, P10[p_, q_, a_, b_]))))]
+
+    def ens(V):
+        n = V.p.n_satom
+        fc = V.a.fc
+        return [("diagonal blocks symmetric", z3.ForAll([p_, a_, b_], z3.Implies(
+            z3.And(p_ >= 0, p_ < n, a_ >= 0, a_ < 3, b_ >= 0, b_ < 3), fc[p_, p_, a_, b_] == fc[p_, p_, b_, a_])))]
+
+    def gen(rnd):
+        import numpy as np
+        n = rnd.randint(1, 3)
+        return {"fc": np.array([rnd.uniform(-1, 1) for _ in range(n * n * 9)]).reshape(n, n, 3, 3), "n_satom": n, "level": rnd.randint(0, 2)}
+    def replay_py(env):
+        """numpy transcription of the documented scheme (replay only)"""
+        import numpy as np
+        f = np.array(env["fc"], dtype=float)
+        n = f.shape[0]
+        for _ in range(env["level"]):
+            f = f - f.sum(axis=0, keepdims=True) / n
+            f = f - f.sum(axis=1, keepdims=True) / n
+            f = (f + f.transpose(1, 0, 3, 2)) / 2
+        g = f.copy()
+        for i in range(n):
+            s_ = sum(f[i, j] for j in range(n) if j != i) if n > 1 else np.zeros((3, 3))
+            g[i, i] = -(s_ + s_.T) / 2
+        return [] if np.allclose(env["fc__post"], g, atol=1e-10) else ["output == Trans(Sym(Row(Col(fc)))^level)"]
+    return Contract(F, "phpy_perm_trans_symmetrize_fc", shapes={"fc": lambda P: [P.n_satom, P.n_satom, 3, 3]},
+                    requires=lambda V: [V.p.n_satom >= 1], ensures=ens, modifies=("fc",), replay_py=replay_py,
+                    loops={0: LoopSpec(inv_iter), 1: LoopSpec(inv_col_j), 4: LoopSpec(inv_col_sum, unfold=unfold_col_sum), 5: LoopSpec(inv_col_sub),
+                           6: LoopSpec(inv_row_i), 9: LoopSpec(inv_row_sum, unfold=unfold_row_sum), 10: LoopSpec(inv_row_sub)},
+                    use_contracts={"set_index_permutation_symmetry_fc", "set_translational_symmetry_fc"}, gen=gen)
